@@ -16,6 +16,11 @@ TARGETS = {
         "src": "provider/src/write/state.rs",
         "args": ["--types", "State,ObjectState,ArrayState", "--extern-enum", "WriteResult=WR_", "--import", "Gen.CodesGen"],
     },
+    # provider/src/log.rs: Logs::append (the copy plan) and Logs::read_ptrs (what the host reads) (C05)
+    "LogFnGen": {
+        "src": "provider/src/log.rs",
+        "args": ["--types", "Logs"],
+    },
 }
 
 
